@@ -1,6 +1,7 @@
 // Property profiles: generator weights, oracle sets, non-triviality rules.
 #include "profile.hpp"
 #include "cdf.hpp"
+#include "bigcase.hpp"
 #include <map>
 
 static std::map<std::string, Profile> &registry() { static std::map<std::string, Profile> r; return r; }
@@ -444,6 +445,64 @@ struct Init {
             p.nontrivial = [](const Program &q, const RunResult &r) { return r.completed && r.st.bytes_written > 0 && r.st.posix > 0; };
             p.assumptions = {"programs stay inside the documented limitations of the driver (README.burst_buffering.md, known issues 2 and 3) and use only calls whose behaviour the property states; request counts, attached-buffer accounting and cancellation are not compared", "return codes of range errors are not exercised (the driver reports them at flush time, known issue 1)", "short reads/writes are injected, EINTR is not (the driver reports it as an error, which the property does not forbid)"};
             p.quick_s = 40; p.thorough_s = 600;
+            reg(p);
+        }
+        {   // C18 format size limits and 64-bit addressing
+            struct Tpl { int type; std::vector<long long> dims; };   // a variable template (non-record dimensions)
+            struct Case { int format; std::vector<std::pair<int, bool>> vars; /* (template index, record?) */ long long baddim; };
+            static std::vector<Tpl> tpl[6]; static std::vector<Case> cases;
+            if (cases.empty()) {
+                const long long P31 = 1LL << 31, P32 = 1LL << 32, P29 = 1LL << 29, P30 = 1LL << 30, P28 = 1LL << 28;
+                // index 0 is always the small template
+                tpl[1] = {{NC_INT, {10}}, {NC_BYTE, {P31 - 5}}, {NC_BYTE, {P31 - 4}}, {NC_BYTE, {P31 - 3}}, {NC_SHORT, {P30 - 2}}, {NC_SHORT, {P30 - 1}}, {NC_INT, {P29}}, {NC_DOUBLE, {P28 - 1}}, {NC_INT, {3, P29}}};
+                tpl[2] = {{NC_INT, {10}}, {NC_BYTE, {2, P31 - 2}}, {NC_BYTE, {2, P31 - 1}}, {NC_SHORT, {P31 - 2}}, {NC_SHORT, {P31 - 1}}, {NC_INT, {P30 - 1}}, {NC_INT, {P30}}, {NC_DOUBLE, {P29 - 1}}, {NC_BYTE, {P31 - 1}}, {NC_DOUBLE, {3, P29}}};
+                tpl[5] = {{NC_INT, {10}}, {NC_INT, {P30}}, {NC_BYTE, {P32 + 7}}, {NC_DOUBLE, {P29 + 1}}, {NC_INT64, {(1LL << 60) - 1}}, {NC_DOUBLE, {1LL << 60}}, {NC_BYTE, {0x7fffffffffffffffLL - 3}}, {NC_BYTE, {0x7fffffffffffffffLL - 2}}, {NC_BYTE, {P32, P32}}, {NC_USHORT, {3, P31}}};
+                for (int f : {1, 2, 5}) {
+                    int nt = (int)tpl[f].size(); std::vector<std::pair<int, bool>> alpha; for (int t = 0; t < nt; t++) { alpha.push_back({t, false}); alpha.push_back({t, true}); }
+                    for (size_t a = 0; a < alpha.size(); a++) { cases.push_back({f, {alpha[a]}, 0});
+                        for (size_t b = 0; b < alpha.size(); b++) { cases.push_back({f, {alpha[a], alpha[b]}, 0});
+                            for (size_t c2 = 0; c2 < alpha.size(); c2++) { int big = (alpha[a].first != 0) + (alpha[b].first != 0) + (alpha[c2].first != 0); if (big <= 2) cases.push_back({f, {alpha[a], alpha[b], alpha[c2]}, 0}); } } }
+                    for (long long bd : {-1LL, P31 - 1, P31, P32 - 1, P32, 0x7fffffffffffffffLL}) cases.push_back({f, {{0, false}}, bd});
+                }
+            }
+            Profile p; p.id = "C18"; p.level = "exploration"; p.space_seeds = (long)cases.size();
+            p.technique = "deterministic simulation: enumeration of definition sets around every size threshold of the three formats on the sparse simulated file system, with element accesses on both sides of 2^31 / 2^32 checked against the raw image";
+            p.rule = "variable templates per format with byte sizes just below / at / above 2^31-4 (CDF-1), 2^32-4 (CDF-2) and 2^63-4 (CDF-5, incl. a 2^64 overflow) plus a small one; every sequence of 1..3 variables (each fixed or record, at most two large) is one case, plus dimension lengths -1, 2^31-1, 2^31, 2^32-1, 2^32, 2^63-1 per format: " + std::to_string(cases.size()) + " cases, seeds 1.." + std::to_string(cases.size()) + " enumerate them all (later seeds repeat them with 2 ranks / other schedules); oracle (a) def_dim and enddef return codes against a rule table written from the format limits (exact integer arithmetic); (b) for accepted definitions the header on the sparse simulated disk decodes strictly, begins are ordered / non-overlapping / below 2^31 in CDF-1, vsize saturates as specified, ncmpi_inq_varoffset agrees; first / last elements, elements whose byte offsets straddle 2^31 and 2^32, a 2-element box and a strided pair are written (blocking, nonblocking, strided) by alternating ranks, found at the independently computed byte offset of the raw image and read back by every rank; non-trivial = the case reached enddef";
+            p.gen = [](uint64_t seed, bool th) {
+                Program q; q.seed = seed; q.cfg.profile = "C18";
+                size_t ci = (size_t)((seed - 1) % cases.size()); uint64_t lap = (seed - 1) / cases.size(); const Case &cs = cases[ci];
+                q.cfg.sim.nprocs = lap == 0 ? 1 + (int)(ci % 2) : 1 + (int)((seed * 7) % 3); q.cfg.sim.node_of.assign(q.cfg.sim.nprocs, 0); q.cfg.sim.deviate = lap ? 0.2 : 0; q.cfg.format = cs.format;
+                BigCase bc; bc.format = cs.format; bool anyrec = false; for (auto &v : cs.vars) anyrec = anyrec || v.second;
+                if (cs.baddim) { bc.dimlen.push_back(cs.baddim); }
+                else {
+                    if (anyrec) bc.dimlen.push_back(0);
+                    for (auto &v : cs.vars) { const Tpl &t = tpl[cs.format][v.first]; BigCase::Var x; x.type = t.type; if (v.second) x.dimids.push_back(0); for (auto d : t.dims) { bc.dimlen.push_back(d); x.dimids.push_back((int)bc.dimlen.size() - 1); } bc.vars.push_back(x); }
+                    // accesses (skipped by the executor when the definitions are rejected)
+                    int k = 0;
+                    for (size_t vi = 0; vi < bc.vars.size(); vi++) {
+                        const BigCase::Var &x = bc.vars[vi]; size_t nd = x.dimids.size(); bool rec = cs.vars[vi].second; int xs = cdf::type_size(x.type);
+                        std::vector<long long> len(nd); for (size_t d = 0; d < nd; d++) len[d] = bc.dimlen[x.dimids[d]] == 0 ? 3 : bc.dimlen[x.dimids[d]];   // 3 records
+                        auto add = [&](std::vector<long long> st, std::vector<long long> ct, int mode, std::vector<long long> sd = {}) { BigCase::Acc a; a.var = (int)vi; a.mode = mode; a.writer = k++; a.start = st; a.count = ct; a.stride = sd.empty() ? std::vector<long long>(nd, 1) : sd; bc.acc.push_back(a); };
+                        std::vector<long long> zero(nd, 0), one(nd, 1), last(nd); for (size_t d = 0; d < nd; d++) last[d] = len[d] - 1;
+                        add(zero, one, 0); add(last, one, 1);
+                        if (len[nd - 1] >= 2) { auto st = last; st[nd - 1] = len[nd - 1] - 2; auto ct = one; ct[nd - 1] = 2; add(st, ct, 0); }
+                        if (len[nd - 1] >= 3) { auto st = zero; if (rec) st[0] = 1; auto ct = one; ct[nd - 1] = 2; std::vector<long long> sd(nd, 1); sd[nd - 1] = len[nd - 1] - 1; add(st, ct, 2, sd); }
+                        // elements whose byte offset inside the variable (or record) is just below / at 2^31 and 2^32
+                        for (long long B : {1LL << 31, 1LL << 32}) {
+                            long long e0 = B / xs - 1; std::vector<long long> st(nd, 0); long long rem = e0; bool ok = true;
+                            for (int d = (int)nd - 1; d >= (rec ? 1 : 0); d--) { st[d] = rem % len[d]; rem /= len[d]; } if (rem != 0) ok = false;
+                            if (!ok) continue; if (rec) st[0] = 2;
+                            if (st[nd - 1] + 1 < len[nd - 1]) { auto ct = one; ct[nd - 1] = 2; add(st, ct, (int)(k % 2)); } else add(st, one, 0);
+                        }
+                    }
+                }
+                Op o; o.kind = OP_BIGCASE; o.file = 0; o.att.v = bigcase_encode(bc); q.ops.push_back(o);
+                return q;
+            };
+            p.check = [](Program &q) { RunOpts o; o.check_leaks = true; return run_program(q, o); };
+            p.nontrivial = [](const Program &q, const RunResult &r) { return r.completed && r.st.coll > 0; };
+            p.assumptions = {"part (a) (acceptance rule) is an input rule with no schedule in it; it is decided here because it is the precondition of part (b) and shares its executor", "accesses are limited to byte offsets <= 2^62 (MPI_Offset is a signed 64-bit integer)"};
+            p.quick_s = 40; p.thorough_s = 300;
             reg(p);
         }
         {   // C17 lifecycle of handles and resources
